@@ -32,6 +32,39 @@ def expectedField (s : Spec) (v : Bytes) : DField :=
 def expectedRecord (t : Template) (vals : List Bytes) : Record :=
   List.zipWith expectedField (specsOf t) vals
 
+/-! ## What "interpreting the field's octets according to the data type" means for the integer types
+
+Written from RFC 7011 §6.1.1 / §6.1.2 (RFC 7012 §3.1.1–3.1.8: unsigned8 … unsigned64, signed8 … signed64), without
+reference to `interpret`: "encoded … in network byte order", i.e. the most significant octet first.  Reduced-size
+encoding (RFC 7011 §6.2) and the over-long fields of NetFlow v9 exporters (an unsigned32 element announced with 8
+octets) change the NUMBER of octets, not their meaning, so the value is that of ALL the octets of the field.
+`Props/C03.integer_fields_decode_to_their_value` / `Props/C06.…` prove that `interpret` yields exactly this for
+every integer field whose length is at least the type's size and at most 8 (F24: before the repair it read the
+leading octets of the type's size). -/
+
+/-- the number whose big-endian (network byte order) representation the octets are -/
+def unsignedValue : Bytes → Nat
+  | [] => 0
+  | x :: xs => x.toNat * 256 ^ xs.length + unsignedValue xs
+
+/-- the octets as a two's-complement number of 8 · length bits -/
+def signedValue (b : Bytes) : Int :=
+  if 256 ^ b.length ≤ 2 * unsignedValue b then (unsignedValue b : Int) - ((256 ^ b.length : Nat) : Int)
+  else (unsignedValue b : Int)
+
+/-- size in octets of the unsigned / signed integer types, by FieldType index (the iota block of
+`ipfix/rfc5102_model.go`, tied to the regenerated table in `Props/C20.fieldTypes_eq_registry`) -/
+def uintSize? : Nat → Option Nat
+  | 1 => some 1 | 2 => some 2 | 3 => some 4 | 4 => some 8 | _ => none
+def intSize? : Nat → Option Nat
+  | 5 => some 1 | 6 => some 2 | 7 => some 4 | 8 => some 8 | _ => none
+
+/-- the integer a decoded value carries (none for the non-integer kinds) -/
+def intOf : Val → Option Int
+  | .u8 n | .u16 n | .u32 n | .u64 n => some (n : Int)
+  | .i8 n | .i16 n | .i32 n | .i64 n => some n
+  | _ => none
+
 /-- a template set announces its templates in order; a later one overrides an earlier one -/
 def insertAll (addr : Bytes) (c : Cache) (ts : List Template) : Cache :=
   ts.foldl (fun c t => c.insert addr t.tid t) c
@@ -192,14 +225,16 @@ def encodeRecord (t : Template) (vals : List VVal) : Bytes :=
 def expectedRecord (t : Template) (vals : List VVal) : Record :=
   Wire.expectedRecord t (vals.map (·.octets))
 
-/-- the element is in the information model; the 65535 marker only on string / octetArray elements,
-with a length the chosen prefix can express; fixed lengths otherwise -/
+/-- the element is in the information model; a specifier length of 65535 announces a variable-length field
+**whatever the element's type** (RFC 7011 §7 "The Length field of the Field Specifier is set to 65535" — no
+restriction to strings; RFC 6313 structured data is always sent so), with a length the chosen prefix can
+express; every other specifier length is a fixed length and the value has exactly it.  Until the F23 repair
+this demanded a string / octetArray element for the marker — a hypothesis read off the decoder, not the RFC. -/
 def wfField (s : Spec) (v : VVal) : Bool :=
   match lookupElem s.ent s.id with
   | none => false
-  | some (_, ty) =>
+  | some _ =>
     if s.len = 65535 then
-      (ty == tString || ty == tOctets) &&
       (if v.long then decide (v.octets.length < 65536) else decide (v.octets.length < 255))
     else v.octets.length == s.len
 
